@@ -20,8 +20,9 @@ CLASSES = {
     'detect_params': {'quick': 3000, 'thorough': 100000},
     'detect_measures': {'quick': 1600, 'thorough': 48000},
     'solver': {'quick': 120, 'thorough': 2800},
+    'mask_update': {'quick': 1500, 'thorough': 30000},
 }
-MIN_EVENTS = {'quick': {'assert:detect': 4000, 'assert:solver': 200, 'collapses_applied': 40}}
+MIN_EVENTS = {'quick': {'assert:detect': 4000, 'assert:solver': 200, 'collapses_applied': 40, 'assert:mask': 2500}}
 CASE_TIMEOUT = 300
 BAND = 1e-12
 
@@ -325,8 +326,67 @@ def run_solver(rng, obs):
     obs.notes = {'collapses': len(applied), 'fixed': {str(k): v for k, v in fixed.items()}, 'tied': sorted(tied), 'steps': nstep[0], 'stop': str(s.Terminated(info=True))[:120]}
 
 
+def run_mask_update(rng, obs):
+    """the termination's mask grows by exactly what was applied (mask.update_mask, every mask format, inside compound conditions)"""
+    import mystic.termination as mt
+    from mystic.mask import update_mask
+    kind = rng.choice(['CollapseAt', 'CollapseAs', 'CollapseWeight', 'CollapsePosition'])
+    nmeas, npt, dim = rng.randint(1, 4), rng.randint(2, 4), rng.randint(2, 6)
+    def rand_items(k):
+        if kind == 'CollapseAt': return set(rng.sample(range(dim), min(k, dim)))
+        if kind == 'CollapseAs': return set(rng.sample(list(itertools.combinations(range(dim), 2)), min(k, dim * (dim - 1) // 2)))
+        if kind == 'CollapseWeight': return set((rng.randrange(nmeas), rng.randrange(npt)) for _ in range(k))
+        return set((rng.randrange(nmeas), tuple(sorted(rng.sample(range(npt), 2)))) for _ in range(k))
+    old_items = rand_items(rng.randint(0, 3))
+    new_items = rand_items(rng.randint(1, 3))
+    fmt = 'set' if kind in ('CollapseAt', 'CollapseAs') else rng.choice(['dict', 'dict', 'set', 'where'])
+    def encode(S, empty_as_none):
+        if not S and empty_as_none: return None
+        if fmt == 'set': return set(S)
+        if fmt == 'dict':
+            d = {}
+            for m, v in S: d.setdefault(m, set()).add(v)
+            return d
+        S2 = sorted(S)
+        return (tuple(m for m, v in S2), tuple(v for m, v in S2)) if S2 else ()
+    def decode(mask):
+        if mask is None: return set()
+        if isinstance(mask, dict): return set((int(m), (tuple(map(int, v)) if isinstance(v, tuple) else int(v))) for m, vs in mask.items() for v in vs)
+        if isinstance(mask, set): return set((tuple(map(int, i)) if isinstance(i, tuple) and not isinstance(i[1], tuple) else ((int(i[0]), tuple(map(int, i[1]))) if isinstance(i, tuple) else int(i))) for i in mask) if kind not in ('CollapseAt',) else set(int(i) for i in mask)
+        mask = tuple(mask)
+        return set(zip(map(int, mask[0]), [tuple(map(int, v)) if isinstance(v, tuple) else int(v) for v in mask[1]])) if len(mask) == 2 else set()
+    mk = getattr(mt, kind)
+    cond = mk(mask=encode(old_items, rng.random() < 0.5), generations=rng.choice([2, 5, 50]))
+    other = mt.VTR(1e-3)
+    other_collapse = mt.CollapseAt(mask={0}) if kind != 'CollapseAt' else mt.CollapseAs(mask={(0, 1)})
+    shape = rng.choice(['bare', 'or', 'nested'])
+    term = cond if shape == 'bare' else (mt.Or(other, cond, other_collapse) if shape == 'or' else mt.Or(other, mt.And(cond, mt.ChangeOverGeneration()), other_collapse))
+    before = mt.state(term)
+    key = cond.__doc__
+    newterm = update_mask(term, {key: encode(new_items, False)})
+    after = mt.state(newterm)
+    grown = [k for k in after if k.startswith(kind + ' with')]
+    obs.desc = {'kind': kind, 'format': fmt, 'old': sorted(map(str, old_items)), 'new': sorted(map(str, new_items)), 'shape': shape}
+    ok = len(grown) == 1
+    obs.check(ok, 'mask:the updated termination still holds exactly one condition of the collapsed kind', kinds=list(after))
+    if ok:
+        got = decode(after[grown[0]].get('mask'))
+        want = set(old_items) | set(new_items)
+        if kind == 'CollapseAs': got = set(tuple(sorted(p)) for p in got); want = set(tuple(sorted(p)) for p in want)
+        obs.check(got == want, 'mask:the termination mask grows by exactly what was applied', kind=kind, format=fmt, old=sorted(map(str, old_items)),
+                  applied=sorted(map(str, new_items)), observed=sorted(map(str, got)), expected=sorted(map(str, want)), shape=shape)
+        rest_b = {k: v for k, v in before.items() if not k.startswith(kind + ' with')}
+        rest_a = {k: v for k, v in after.items() if not k.startswith(kind + ' with')}
+        obs.check(str(rest_b) == str(rest_a), 'mask:other conditions of the termination are left alone', before=str(rest_b)[:200], after=str(rest_a)[:200])
+        # the settings other than the mask survive the update
+        kb = {k: v for k, v in before[key].items() if k != 'mask'}; ka = {k: v for k, v in after[grown[0]].items() if k != 'mask'}
+        obs.check(kb == ka, 'mask:tolerance/window settings survive the mask update', before=kb, after=ka)
+    obs.nontrivial = bool(old_items) and bool(set(new_items) - set(old_items))
+    obs.notes = {'old': len(old_items), 'new': len(new_items)}
+
+
 def run_case(cls, idx, rng, obs):
     import warnings
     warnings.simplefilter('ignore')
     np.seterr(all='ignore')
-    return {'detect_params': run_detect_params, 'detect_measures': run_detect_measures, 'solver': run_solver}[cls](rng, obs)
+    return {'detect_params': run_detect_params, 'detect_measures': run_detect_measures, 'solver': run_solver, 'mask_update': run_mask_update}[cls](rng, obs)
